@@ -235,6 +235,7 @@ func runC05(c *an.Ctx) {
 	c.Min("C05.d", "arithmetic sites in doRequest", n, 3)
 	// the response-count bound used above: sendMessage reads at most req.Amount responses
 	sendMessageBound(c, "C05.d", s)
+	checkClientMetricsArithmetic(c, "C05.d")
 
 	// --- C05.e final order
 	st, sf := c.T(s.sesGet), c.F(s.sesGet)
